@@ -72,7 +72,9 @@ def measure(prop, seed=1, repo="/repo", log=lambda s: None):
         for h in load_cfg(prop):
             name = h["name"]
             out = os.path.join(tmp, name + ".bin")
-            cov = ["-cover", "-coverpkg=" + ",".join(pkgs)]
+            # the main package must be among the instrumented ones, otherwise a `go build -cover`
+            # binary writes no counters at all
+            cov = ["-cover", "-coverpkg=" + ",".join(pkgs + ["verifharness/cmd/" + name])]
             if h.get("gotest"):
                 cmd = ["go", "test", "-c"] + cov + ["-tags", "verif", "-vet=off", "-o", out, "./cmd/" + name]
             else:
